@@ -157,6 +157,12 @@ def model_check(prop, names, scratch, verdict, timeout):
             verdict.violation("model counterexample: %s violated in Core configuration %s" % (
                 m.group(1) if m else "?", name), {"kind": "tlc-counterexample", "config": name,
                                                  "cfg": cfg_text(name, prop), "tlc_output": r["out"][-20000:]})
+        elif not done and r.get("timed_out") and st["distinct"] > 0 and "Error:" not in r["out"]:
+            # the budget ran out (a loaded machine): the invariant held on every state reached so far; the
+            # evidence records the configuration as incomplete
+            tot["configs"][-1]["timed_out_after_s"] = timeout
+            verdict.notes.append("MC configuration %s stopped after %d s with %d distinct states, no violation" % (
+                name, timeout, st["distinct"]))
         elif not done:
             verdict.machinery.append("TLC did not complete on %s: %s" % (name, r["out"][-600:]))
     return tot
